@@ -217,4 +217,28 @@ VARIANTS = [
                             "        fwd_injections.mark_dropped(message.packet_id)\n",
          "new": "        both = self._get_injections(message.direction)\n        fwd_injections = both[1]\n"
                 "        reverse_injections = both[0]\n\n        fwd_injections.mark_dropped(message.packet_id)\n"}]},
+    # ------------------------------------------------------------------ round 4
+    {"name": "R8 circuit reference deleted when the region dies", "file": "hippolyzer/lib/client/state.py", "expect": "C05.R8",
+     "old": "            self.circuit.is_alive = False\n", "new": "            self.circuit.is_alive = False\n            del self.circuit\n"},
+    {"name": "P R8 annotated constructor assignment", "file": "hippolyzer/lib/client/state.py", "expect": "silent",
+     "old": "        self.circuit = None\n", "new": "        self.circuit: Optional[Circuit] = None\n"},
+    {"name": "P R7 scrub moved into a method called on the copy", "expect": "silent", "edits": [
+        {"file": MSG, "old": "        message_copy.acks = tuple()\n        message_copy.send_flags &= ~PacketFlags.ACK\n"
+                            "        message_copy.packet_id = None\n",
+         "new": "        message_copy._forget_wire_identity()\n"},
+        {"file": MSG, "old": "    def take(self):\n",
+         "new": "    def _forget_wire_identity(self):\n        self.packet_id = None\n        self.acks = ()\n"
+                "        self.send_flags &= ~PacketFlags.ACK\n\n    def take(self):\n"}]},
+    {"name": "R7 scrub method skips the acks of reliable messages", "expect": "C05.R7", "edits": [
+        {"file": MSG, "old": "        message_copy.acks = tuple()\n        message_copy.send_flags &= ~PacketFlags.ACK\n"
+                            "        message_copy.packet_id = None\n",
+         "new": "        message_copy._forget_wire_identity()\n"},
+        {"file": MSG, "old": "    def take(self):\n",
+         "new": "    def _forget_wire_identity(self):\n        self.packet_id = None\n        if self.reliable:\n            return\n"
+                "        self.acks = ()\n        self.send_flags &= ~PacketFlags.ACK\n\n    def take(self):\n"}]},
+    {"name": "P R1 selector result split by a tuple assignment", "expect": "silent", "edits": [
+        {"file": PC, "old": "        fwd_injections, reverse_injections = self._get_injections(message.direction)\n\n"
+                            "        fwd_injections.mark_dropped(message.packet_id)\n",
+         "new": "        both = self._get_injections(message.direction)\n        fwd_injections, reverse_injections = both[0], both[1]\n\n"
+                "        fwd_injections.mark_dropped(message.packet_id)\n"}]},
 ]
